@@ -142,6 +142,10 @@ def run_impl(case: dict) -> dict:
                 out["sessions"].append({"no_pairs": True, "before": before})
                 # a failed session must not change the model (C08's business); stop here
                 break
+            try:
+                e.partial = {"failed_session": len(out["sessions"]), "before": before}
+            except Exception:  # noqa: BLE001
+                pass
             raise
         out["sessions"].append({
             "before": before,
@@ -275,7 +279,86 @@ def oracle_step(case, s, theta):
                 d["u"], d["uObs"] = ((sum(1 - p for p, g in zip(ps, data) if g[idx] == k) / totu), True) if obs else (1e-6, False)
             lv.append(d)
         new["comparisons"][name] = lv
-    return new, ll
+    # conditioning of the step in floating point: m' (u') are sums of p (1 - p); a posterior within eps*kappa of 0 or 1 carries a
+    # relative error of about eps*kappa in double arithmetic, whatever formula computes it
+    kappa = 1.0 / max(min(min(ps), 1 - max(ps)), 1e-300)
+    return new, ll, kappa
+
+
+def cond_tol(base, kappa):
+    """Relative tolerance for comparing two double-precision evaluations of one EM step with condition number kappa."""
+    return max(base, 4e-15 * kappa)
+
+
+KAPPA_MAX = 1e11  # beyond this a posterior is within ~1e-11 of 0 or 1: 1 - p has fewer than 5 significant digits in double precision
+
+
+def supernormalised(case, s, theta):
+    """Do the m (or u) values of the levels that occur in the session's data sum to more than 1 for some trained comparison?
+    (The hypothesis of C03L.loglik_mono; Splink's own starting values of a later session are medians of earlier sessions'
+    estimates and need not be normalised.)  Returns a description or None."""
+    act = active(case, s)
+    pairs = blocked_pairs(case, s["rule_cols"])
+    for ci in act:
+        c = case["comparisons"][ci]
+        name = comp_name(case, ci)
+        seen = set()
+        for x, y in pairs:
+            seen.add(next(k for k, l in enumerate(c["levels"]) if c02.guard(l, x[c["col"]], y[c["col"]]) == 1))
+        for mu in ("m", "u"):
+            tot = sum(theta["comparisons"][name][k][mu] for k in seen if theta["comparisons"][name][k] is not None)
+            if tot > 1 + 1e-9:
+                return f"{mu} of {name} over the observed levels sums to {tot}"
+    return None
+
+
+def underflow_witness(case, r=None):
+    """For a case on which training raises: the smallest trained parameter just before the failure.  TF-free sessions: the
+    textbook EM (oracle_step, Python doubles) is iterated from the state the failing session started in until a parameter
+    is exactly 0.0 / the mixture underflows (returns 0.0) or max_iterations is reached (returns the minimum seen).
+    Otherwise (TF sessions): runs of the REAL code with fewer iterations.  A value that the next iteration sends to 0.0
+    identifies the floating-point underflow finding K9."""
+    r = r if r is not None else run_impl_safe(case)
+    part = r.get("partial") if isinstance(r, dict) else None
+    if part and part["failed_session"] < len(case["sessions"]):
+        s = case["sessions"][part["failed_session"]]
+        theta = dict(part["before"], prior=expected_start_prior(case, s, part["before"]))
+        lo = 1.0
+        for _ in range(int(case.get("max_iter", 25)) + 1):
+            try:
+                res = oracle_step(case, s, theta)
+            except (ZeroDivisionError, ValueError):
+                return 0.0
+            if res is None:
+                break
+            theta = res[0]
+            act = [comp_name(case, ci) for ci in active(case, s)]
+            vals = [x[mu] for nm in act for x in theta["comparisons"][nm] if x for mu, ob in (("m", "mObs"), ("u", "uObs")) if x[ob]]
+            if vals:
+                lo = min(lo, min(vals))
+            if lo == 0.0:
+                return 0.0
+        else:
+            return lo
+    for k in range(int(case.get("max_iter", 25)) - 1, 0, -1):
+        rk = run_impl_safe(dict(case, max_iter=k))
+        if "sessions" in rk:
+            vals = [x[mu] for o in rk["sessions"] for hh in o.get("history", [])[-1:] for lv in hh["comparisons"].values() for x in lv
+                    if x for mu, ob in (("m", "mObs"), ("u", "uObs")) if x[ob]]
+            return min(vals) if vals else None
+    return None
+
+
+def failure_key(case, what):
+    """Discriminates failures for reporting, shrinking and the known-findings match."""
+    cls = classify(what)
+    if cls == "log-likelihood decreased":
+        return {"failure": cls, "start_supernormalised": "SUPER-NORMALISED" in what}
+    if cls == "real code raised":
+        log0 = "logarithm of zero" in what or "user-defined function raised exception" in what
+        w = underflow_witness(case) if log0 else None
+        return {"failure": cls, "parameter_underflow_to_zero": bool(log0 and w is not None and w < 1e-100)}
+    return {"failure": cls}
 
 
 def theta_close(a, b, tol=1e-9):
@@ -328,13 +411,17 @@ def verdict(case, r):
             res = oracle_step(case, s, h[i])
             if res is None:
                 break
-            new, ll = res
-            d = theta_close(h[i + 1], new, 1e-7)
+            new, ll, kappa = res
+            if kappa > KAPPA_MAX:
+                break  # exactness in double precision cannot be judged from here on (counted by compare(): degenerate iterations)
+            d = theta_close(h[i + 1], new, cond_tol(1e-7, kappa))
             if d:
                 return f"session {si} iteration {i + 1}: parameters differ from a reference EM step: {d}"
             if prev_ll is not None and not (s["fix_m"] or s["fix_u"] or s["fix_lambda"]) and not any(l.get("fix_m") or l.get("fix_u") for ci in active(case, s) for l in case["comparisons"][ci]["levels"]):
                 if ll < prev_ll - 1e-9 * max(1.0, abs(prev_ll)):
-                    return f"session {si} iteration {i}: observed-data log-likelihood decreased from {prev_ll} to {ll}"
+                    sup = supernormalised(case, s, h[i - 1])
+                    return (f"session {si} iteration {i}: observed-data log-likelihood decreased from {prev_ll} to {ll}"
+                            + (f" [the iteration starts from SUPER-NORMALISED parameters: {sup}]" if sup else ""))
             prev_ll = ll
             for name, lv in h[i + 1]["comparisons"].items():
                 if not s["fix_m"] and not any(l.get("fix_m") for l in case["comparisons"][[comp_name(case, ci) for ci in range(len(case["comparisons"]))].index(name)]["levels"]):
@@ -427,7 +514,14 @@ def compare(ctx, cases, drv):
             for ci, lv in zip(act, m["params"]["comparisons"]):
                 model_next["comparisons"][comp_name(c, ci)] = [None if l["kind"] == "null" else {"m": core.b2f(x["m"]), "u": core.b2f(x["u"]), "mObs": x["mObs"], "uObs": x["uObs"]}
                                                                for l, x in zip(c["comparisons"][ci]["levels"], lv)]
-            d = theta_close({"prior": real_next["prior"], "comparisons": {k: real_next["comparisons"][k] for k in model_next["comparisons"]}}, model_next, 1e-9)
+            mp = [core.b2f(x) for x in m.get("probs", [])]
+            kappa = 1.0 / max(min(min(mp), 1 - max(mp)), 1e-300) if mp else 1.0
+            if kappa > KAPPA_MAX:
+                ctx.count("degenerate iterations excluded (a posterior within 1e-11 of 0 or 1: 1-p has < 5 significant digits)", 1)
+                break
+            if 4e-15 * kappa > 1e-9:
+                ctx.count("ill_conditioned_iterations (tolerance widened to 4e-15 / min(p, 1-p))", "1e-9..1e-6" if 4e-15 * kappa <= 1e-6 else ">1e-6")
+            d = theta_close({"prior": real_next["prior"], "comparisons": {k: real_next["comparisons"][k] for k in model_next["comparisons"]}}, model_next, cond_tol(1e-9, kappa))
             if d:
                 bad = f"session {si} iteration {i + 1}: real parameters vs EM.step(real previous parameters): {d}"
                 break
@@ -447,12 +541,25 @@ def compare(ctx, cases, drv):
     return problems
 
 
-def impl_fails(case):
+def what_of(case):
     r = run_impl_safe(case)
-    return "__error__" in r or verdict(case, r) is not None
+    if "__error__" in r:
+        return f"real code raised {r['__error__']}: {r['text'][-700:]}"
+    return verdict(case, r)
 
 
-def shrink(case):
+def impl_fails(case, key=None):
+    w = what_of(case)
+    if w is None:
+        return False
+    return key is None or failure_key(case, w) == key
+
+
+def shrink(case, key=None):
+    def impl_fails(c):  # the same failure, not merely some failure
+        w = what_of(c)
+        return w is not None and (key is None or failure_key(c, w) == key)
+
     cur = json.loads(json.dumps(case))
     budget = 30
     changed = True
@@ -517,15 +624,19 @@ def run(ctx: core.Ctx):
     broken = [(c, w) for c, w, conc in problems if not conc]
     reported = set()
     for c, w in concrete:
-        cls = classify(w)
-        if cls in reported or len(reported) >= 4:
+        if w.startswith("real code raised"):
+            w = what_of(c) or w  # the tail of the error text (the engine's message) decides the key
+        key = failure_key(c, w)
+        kid = json.dumps(key, sort_keys=True)
+        if kid in reported or len(reported) >= 6:
             continue
-        reported.add(cls)
-        small = shrink(c) if not c.get("tag", "").startswith("corpus") else c
+        reported.add(kid)
+        small = shrink(c, key) if not c.get("tag", "").startswith("corpus") else c
         rr = run_impl_safe(small)
-        what = (verdict(small, rr) if "sessions" in rr else f"real code raised {rr['__error__']}: {rr['text'][:300]}") or w
-        ctx.violation("real output violates C03: " + classify(what), {"case": small, "observed": rr if len(json.dumps(rr, default=str)) < 20000 else "(large)", "detail": what},
-                      kind="concrete", match_info={"failure": classify(what), "names": small["names"]["a"]})
+        what = what_of(small) or w
+        ctx.violation("real output violates C03: " + classify(what) + "".join(f" [{k}]" for k, v in key.items() if v is True),
+                      {"case": small, "observed": rr if len(json.dumps(rr, default=str)) < 20000 else "(large)", "detail": what},
+                      kind="concrete", match_info=dict(failure_key(small, what), names=small["names"]["a"]))
     if not concrete:
         if broken:
             c, w = broken[0]
